@@ -934,6 +934,8 @@ def data_caused(rec, err_message, failing_sql=""):
     whose cast feasibility the property leaves out): the engine reports a constraint failure AND the plan tightens something"""
     if not err_message.startswith(CONSTRAINT_MSG):
         return False
+    if err_message.startswith("CHECK constraint failed") and re.match(r'UPDATE "[^"]*" SET "[^"]*" = \'.*\' WHERE "[^"]*" = \'', failing_sql):
+        return False     # the enum label rewrite of ModifyColumnType itself fails: the stored value was valid
     fk_msg = err_message.startswith("FOREIGN KEY constraint failed")
     for a in rec["plan"]["actions"]:
         ty = a["type"]
